@@ -25,7 +25,7 @@ RULE = (
     "child change; distinct = distinct (tree fingerprint, operation, change kinds)"
 )
 ASSUMPTIONS = ["control construction: Cls(**merged fields) built in the same registry state gives 'the id a fresh construction would get' (id determinism itself is C03's subject)"]
-MUST_SEE = ["rejected_replace_before_duplicate", "value_churn_before_duplicate", "dup_of_node_from_edited_payload", 
+MUST_SEE = ["remodelled_class_duplicate", "rejected_replace_before_duplicate", "value_churn_before_duplicate", "dup_of_node_from_edited_payload", 
     "dup_tuple_depth_ge2", "dup_shared", "dup_stale_twin_in_tree", "replace_detached_with_live_twin", "replace_noncompare_only",
     "replace_child_equal_twin", "dc_replace", "control_constructions", "dup_noninit_fields",
 ]
@@ -294,3 +294,18 @@ def run_shard(ctx):
 
     for k in range(25):
         payload_round(k)
+
+    # ---- duplicate() of an instance of a class that was defined again (more child fields) after its first version was used ----
+    from vlib.universe import remodelled_class
+
+    old_c, new_c, leaf_c = remodelled_class(U, "C14")
+    a_, b_, c_, d_ = leaf_c(v=31), leaf_c(v=32), leaf_c(v=33), leaf_c(v=34)
+    n_ = new_c(first=a_, second=(b_, c_), third=d_, v=5)
+    dup_ = n_.duplicate()
+    ctx.evaluations += 1
+    ctx.count("remodelled_class_duplicate")
+    shared = [nm for nm, x, y in (("first", dup_.first, a_), ("second[0]", dup_.second[0], b_), ("second[1]", dup_.second[1], c_), ("third", dup_.third, d_)) if x is y]
+    if shared or not (dup_ == n_) or dup_ is n_:
+        ctx.violation("dup-shares-object", "the duplicate of a node whose class was defined again (more child fields) shares objects with the original", {"class": new_c.__name__, "shared_positions": shared})
+    dup_.detach()
+    n_.detach()
